@@ -11,7 +11,18 @@ package tags
 //@ method Index pure
 //@ requires inrange: 0 <= arg0 && arg0 < this.Len()
 
-//@ typeinv tags.offsetWrapper: self.n > 0 && self.i != nil
+//@ globalinv tags.errLoopBreak: self != nil && tcomparable(typeof(self))
+//@ globalinv tags.errLoopContinueLoop: self != nil && tcomparable(typeof(self)) && self != errLoopBreak
+
+//@ typeinv tags.tableRowDecorator: self > 0
+
+//@ interface tags.loopDecorator
+//@ method before
+//@ assigns writer
+//@ method after
+//@ assigns writer
+
+//@ typeinv tags.offsetWrapper: self.n >= 0 && self.i != nil
 //@ typeinv tags.limitWrapper: self.n >= 0 && self.i != nil
 //@ typeinv tags.reverseWrapper: self.i != nil
 
@@ -60,3 +71,50 @@ package tags
 //@ props C11 C01
 //@ requires inrange: 0 <= i && i < w.i.Len()
 //@ ensures mirror: result == w.i.Index(w.i.Len() - 1 - i)
+
+// ---- loop modifiers: reverse, then skip offset, then take limit (C11) --------
+
+//@ define dropn(hasOff Bool, off Int, n Int) Int = ite(hasOff && off > 0, max(0, n - off), n)
+//@ define taken(hasLim Bool, lim Int, n Int) Int = ite(hasLim && lim >= 0, min(lim, n), n)
+//@ define skip(hasOff Bool, off Int) Int = ite(hasOff && off > 0, off, 0)
+
+//@ func tags.applyLoopModifiers
+//@ props C11 C01
+//@ requires args: iter != nil && ctx != nil
+//@ ghost offv Val = nil
+//@ ghost limv Val = nil
+//@ ghost offe Val = nil
+//@ ghost lime Val = nil
+//@ at call Evaluate #1: offv = result0
+//@ at call Evaluate #1: offe = result1
+//@ at call Evaluate #2: limv = result0
+//@ at call Evaluate #2: lime = result1
+//@ ensures one: (result1 == nil) != (result0 == nil)
+//@ ensures length: result1 == nil ==> result0.Len() == taken(loop.Limit != nil, as(limv, int), dropn(loop.Offset != nil, as(offv, int), iter.Len()))
+//@ ensures elems: result1 == nil ==> forall(k, 0, result0.Len(), result0.Index(k) == iter.Index(ite(loop.Reversed, iter.Len() - 1 - (k + skip(loop.Offset != nil, as(offv, int))), k + skip(loop.Offset != nil, as(offv, int)))))
+//@ ensures badoffset: loop.Offset != nil && (offe != nil || !is(offv, int)) ==> result1 != nil
+//@ ensures badlimit: loop.Limit != nil && (lime != nil || !is(limv, int)) ==> result1 != nil
+//@ ensures good: (loop.Offset == nil || (offe == nil && is(offv, int))) && (loop.Limit == nil || (lime == nil && is(limv, int))) ==> result1 == nil
+
+// ---- the render loop: visits Index(0..l) in order, binds forloop, restores (C11, C12)
+
+//@ func (tags.loopRenderer).render
+//@ props C11 C12 C01
+//@ requires args: iter != nil && ctx != nil
+//@ ghost n Int = 0
+//@ ghost brk Bool = false
+//@ at call Set #1 assert variable: arg0 == loop.Variable && arg1 == iter.Index(n) && n == i
+//@ at call Set #2 assert record: arg0 == "forloop" && is(arg1, map[string]any)
+//@ at call Set #2 assert fields: as(arg1, map[string]any)["index"] == box(i+1) && as(arg1, map[string]any)["index0"] == box(i) && as(arg1, map[string]any)["rindex"] == box(l-i) && as(arg1, map[string]any)["rindex0"] == box(l-i-1) && as(arg1, map[string]any)["length"] == box(l) && as(arg1, map[string]any)["first"] == box(i == 0) && as(arg1, map[string]any)["last"] == box(i == l-1)
+//@ at call Set #2 assert cycles: as(arg1, map[string]any)[".cycles"] == box(cycleMap, map[string]int) && fresh(cycleMap)
+//@ at call RenderChildren #1: n = n + 1
+//@ loop 1 invariant count: n == i && 0 <= i && i <= l && l == iter.Len()
+//@ loop 1 decreases l - i
+//@ ensures restoreVar: mapget(ctx.Bindings(), loop.Variable) == old(mapget(ctx.Bindings(), loop.Variable))
+//@ ensures restoreLoop: mapget(ctx.Bindings(), "forloop") == old(mapget(ctx.Bindings(), "forloop"))
+
+//@ func tags.makeLoopDecorator
+//@ props C11 C01
+//@ requires args: ctx != nil
+//@ assigns nothing
+//@ ensures one: (result1 == nil) != (result0 == nil)
